@@ -20,6 +20,7 @@ type AParam struct {
 	BodyArrBad bool   // body schema: an array without items
 	BadPattern bool
 	SchemaRef  string // body: referenced definition
+	Desc       string // rendered as the description (two otherwise identical parameters stay distinct array elements)
 }
 
 type AResp struct {
@@ -87,6 +88,9 @@ func (p AParam) render(defs bool) M {
 	if p.Required {
 		m["required"] = true
 	}
+	if p.Desc != "" {
+		m["description"] = p.Desc
+	}
 	if p.Loc == "body" {
 		sch := M{"type": "object"}
 		if p.SchemaRef != "" {
@@ -125,7 +129,9 @@ func (p AParam) render(defs bool) M {
 	}
 	m["type"] = p.Type
 	if p.BadPattern {
-		m["type"] = "string"
+		if p.Type == "" {
+			m["type"] = "string"
+		}
 		m["pattern"] = "("
 	}
 	return m
@@ -483,6 +489,7 @@ var RuleEdits = []string{
 	"!BodyAndFormData", "!ArrayParamNoItems", "!NestedItemsNoItems", "!HeaderArrayNoItems", "!BodySchemaArrayNoItems", "!ResponseSchemaArrayNoItems", "!DefinitionArrayNoItems",
 	"!RequiredUndefined", "!RequiredVsAdditionalFalse", "!RequiredNotInAdditionalSchema", "!DanglingRef", "!DupInheritedProperty", "!CircularAncestryDirect", "!CircularAncestryIndirect",
 	"!OverlappingPaths", "!CircularAncestryBareRing", "!PathParamOnPlainPath", "!DupInheritedViaBareChild", "!BadPatternParam", "!BadPatternHeader", "!BadPatternSchema", "!BadPatternItems",
+	"!SecondBodySameName", "!BadPatternNonStringParam", "!BadPatternSharedNonStringParam",
 	"=AddUnrelatedDefinition", "=RequiredViaAdditionalTrue", "=RequiredViaAdditionalSchema", "=MixedSegmentSiblings", "=MoveParamToPathLevel", "=SameParamNameOtherLocation", "=EmptyOperationIds",
 }
 
@@ -584,6 +591,12 @@ func ApplyRuleEdit(d *ADoc, e string, r *rand.Rand) (ok bool) {
 			op.Params = append(op.Params, AParam{Name: "b1", Loc: "body", SchemaRef: d.Defs[0].Name})
 		}
 		op.Params = append(op.Params, AParam{Name: "b2", Loc: "body", SchemaRef: d.Defs[0].Name})
+	case "!SecondBodySameName":
+		// two body parameters that only differ by their description: one (name, location) pair, two body parameters
+		if hasLoc(op, "formData") || hasLoc(op, "body") {
+			return false
+		}
+		op.Params = append(op.Params, AParam{Name: "twin", Loc: "body", SchemaRef: d.Defs[0].Name}, AParam{Name: "twin", Loc: "body", SchemaRef: d.Defs[0].Name, Desc: "again"})
 	case "!BodyAndFormData":
 		if !hasLoc(op, "body") {
 			op.Params = append(op.Params, AParam{Name: "b1", Loc: "body", SchemaRef: d.Defs[0].Name})
@@ -656,6 +669,14 @@ func ApplyRuleEdit(d *ADoc, e string, r *rand.Rand) (ok bool) {
 			APath{Template: "/ov/{two}", Ops: []AOp{{Method: "get", ID: "ov2", Params: []AParam{{Name: "two", Loc: "path", Required: true, Type: "string"}}, Resps: []AResp{{Code: "200"}}}}})
 	case "!BadPatternParam":
 		op.Params = append(op.Params, AParam{Name: "pat", Loc: "query", BadPattern: true})
+	case "!BadPatternNonStringParam":
+		op.Params = append(op.Params, AParam{Name: "patn", Loc: []string{"query", "header"}[r.Intn(2)], Type: []string{"integer", "number", "boolean"}[r.Intn(3)], BadPattern: true})
+	case "!BadPatternSharedNonStringParam":
+		if d.SharedParams == nil {
+			d.SharedParams = map[string]AParam{}
+		}
+		d.SharedParams["patshared"] = AParam{Name: "patshared", Loc: "query", Type: "integer", BadPattern: true}
+		op.Shared = append(op.Shared, "patshared")
 	case "!BadPatternItems":
 		op.Params = append(op.Params, AParam{Name: "pati", Loc: "query", ItemsDepth: 1, BadPattern: true})
 	case "!BadPatternHeader":
